@@ -32,6 +32,15 @@ QUIRKS = collections.OrderedDict([
     ("nocp", ("P", "kv-unimplemented", "generic-KV back end: catchpoint reader/writer are unimplemented (panic)")),
     ("nocount", ("P", "kv-unimplemented", "generic-KV back end: TotalAccounts/TotalResources/TotalKVs/TotalOnlineAccountRows/TotalOnlineRoundParams return 0")),
     ("norlim", ("P", "kv-unimplemented", "generic-KV back end: LookupLimitedResources returns \"not supported\"")),
+    ("olookwrap", ("P", "kv-lookup-online-bound",
+                   "generickv LookupOnline(addr, rnd) increments the last byte of its big-endian upper bound without carry: for rnd % 256 == 255 "
+                   "the bound wraps and every entry with update round in [rnd-255, rnd] is missed (an older entry, or nothing, is returned)")),
+    ("cdelany", ("P", "kv-delete-creatable-ctype",
+                 "generickv DeleteCreatable ignores the creatable type and always reports 1 row: a delete with the other type removes the "
+                 "creator entry SQLite keeps")),
+    ("txsnap", ("P", "pebble-tx-read-own-writes",
+                "pebbledbdriver transactions read from the snapshot taken at BeginTransaction: reads through the open transaction (and "
+                "OnlineAccountsDelete after inserts in the same batch) do not see the batch's own writes; SQLite does")),
     ("histerr", ("S", "sqlite-online-history-empty",
                  "sqlitedriver LookupOnlineHistory fails (NULL rowid scanned into int64) for an address without rows; the caller and the "
                  "KV driver treat that as an empty history")),
